@@ -67,16 +67,13 @@ func postForm(req *protocol.Request, params param.Params, key string, defaultVal
 
 	mf, err := req.MultipartForm()
 	if err == nil && mf.Value != nil {
-		for k, v := range mf.Value {
-			if k == key && len(v) > 0 {
-				ret = v[0]
-			}
+		// present is present: a part with an empty value is there all the same
+		// (as "f=" is in an urlencoded body, and as the slice getter sees it)
+		if v, ok := mf.Value[key]; ok && len(v) > 0 {
+			return v[0], true
 		}
 	}
 
-	if len(ret) != 0 {
-		return ret, true
-	}
 	if ret, exist = req.URI().QueryArgs().PeekExists(key); exist {
 		return
 	}
